@@ -202,7 +202,9 @@ typedef struct {
 	sess_exp     *sessions;
 	const char   *cur_mut;
 	long          rx_total;
-	int           lingering; // udp peers that vanished without DISC
+	int           lingering; // pipes known to stay: udp peers that vanished without DISC, zombies
+	bool          vanished;  // the current udp session ended without DISC
+	bool          wedged;    // a new client could not connect: stop using this victim
 } victim;
 
 static uint32_t g_inst;
@@ -542,8 +544,17 @@ victim_open(victim *v, const vproto *vp, int tran, size_t recvmax, int ttl)
 	case T_WS: snprintf(v->url, sizeof(v->url), "ws://127.0.0.1:0/c11"); break;
 	case T_UDP: snprintf(v->url, sizeof(v->url), "udp://127.0.0.1:0"); break;
 	}
-	if ((rv = nng_listener_create(&v->l, v->s, v->url)) != 0) vf_harness_fail("listener_create %s: %s", v->url, nng_strerror(rv));
-	if ((rv = nng_listener_start(v->l, 0)) != 0) vf_harness_fail("listener_start %s: %s", v->url, nng_strerror(rv));
+	for (int attempt = 0;; attempt++) {
+		if ((rv = nng_listener_create(&v->l, v->s, v->url)) != 0) vf_harness_fail("listener_create %s: %s", v->url, nng_strerror(rv));
+		if ((rv = nng_listener_start(v->l, 0)) == 0) break;
+		// the shared machine can run out of ephemeral ports (TIME_WAIT):
+		// fall back to explicit ports below the ephemeral range
+		if (rv != NNG_EADDRINUSE || attempt > 60 || (tran != T_TCP && tran != T_WS && tran != T_UDP)) vf_harness_fail("listener_start %s: %s", v->url, nng_strerror(rv));
+		nng_listener_close(v->l);
+		int port = 10000 + (int) (vf_mix64(vf_now_ns() ^ ((uint64_t) getpid() << 20) ^ (uint64_t) attempt) % 22000);
+		snprintf(v->url, sizeof(v->url), "%s://127.0.0.1:%d%s", tran == T_TCP ? "tcp" : tran == T_WS ? "ws" : "udp", port, tran == T_WS ? "/c11" : "");
+		vf_stat("listen_port_retries", 1);
+	}
 	size_t got = 12345;
 	if (nng_listener_get_size(v->l, NNG_OPT_RECVMAXSZ, &got) == 0) {
 		if (tran == T_UDP) {
@@ -783,20 +794,46 @@ victim_close(victim *v)
 	se_free_all(v);
 }
 
-// wait until the victim has digested everything that was sent so far
+// wait until the victim has digested everything that was sent so far: the
+// library is quiescent and every pipe that was started for a connection the
+// raw peer has closed is gone again.  A pipe that stays although its peer is
+// gone ("zombie") is counted; once a transport has shown one, the wait for
+// the others is short (the consequences - e.g. a PAIR socket that can never
+// be paired again - are what the bystander oracle reports).
+static bool zombie_seen[T_N];
+
 static void
 settle(victim *v, int ms)
 {
+	if ((zombie_seen[v->tran] || v->vanished) && ms > 150) ms = 150;
 	uint64_t end = vf_now_ns() + (uint64_t) ms * 1000000ULL;
 	for (;;) {
 		pump(v);
-		if (atomic_load(&v->pre) - atomic_load(&v->rem) <= live_ctl(v) + v->lingering && vf_quiesce(1, 30)) {
-			pump(v);
-			return;
+		// the socket's own pipe count is authoritative (ADD_PRE can fire for
+		// a pipe whose removal was never announced when the peer left
+		// before the pipe was started)
+		int extra = 0;
+		if (vf_quiesce(1, 30)) {
+			extra = vf_pipe_count(v->s) - live_ctl(v) - v->lingering;
+			if (extra <= 0) {
+				pump(v);
+				return;
+			}
 		}
 		if (vf_now_ns() > end) {
-			vf_stat("settle_timeouts", 1);
-			if (vf_verbose) fprintf(stderr, "  settle timeout: pre=%d rem=%d live=%d inflight=%ld mut=%s\n", atomic_load(&v->pre), atomic_load(&v->rem), live_ctl(v), vf_inflight(), v->cur_mut);
+			if (extra > 0 && v->vanished) {
+				// a udp peer that left without DISC stays until its keep-alive expires
+				vf_stat("udp_vanished_peers_kept", extra);
+				v->lingering += extra;
+			} else if (extra > 0) {
+				vf_stat("zombie_pipes", extra);
+				vf_class("zombie-pipe/%s/%s/%s", tnames[v->tran], v->vp->name, v->cur_mut);
+				v->lingering += extra;
+				zombie_seen[v->tran] = true;
+			} else {
+				vf_stat("settle_timeouts", 1);
+			}
+			if (vf_verbose) fprintf(stderr, "  settle timeout: pipes=%d pre=%d rem=%d live=%d inflight=%ld mut=%s\n", vf_pipe_count(v->s), atomic_load(&v->pre), atomic_load(&v->rem), live_ctl(v), vf_inflight(), v->cur_mut);
 			return;
 		}
 		vf_usleep(500);
@@ -860,8 +897,9 @@ check_bystanders(victim *v, bool do_new, bool attacker_present)
 	int k = 1 - o;
 	if (!ctl_connect(v, k)) {
 		snprintf(key, sizeof(key), "C11/control-new/connect/%s/%s", tnames[v->tran], vp->name);
-		vf_violation(key, "a new well-behaved client cannot connect within 8 s after mutation %s", v->cur_mut);
+		vf_violation(key, "a new well-behaved client cannot connect within 8 s after mutation %s (pipes started %d, removed %d, own clients %d)", v->cur_mut, atomic_load(&v->pre), atomic_load(&v->rem), live_ctl(v) - 1);
 		ctl_close(v, k);
+		v->wedged = true;
 		return;
 	}
 	if (!exchange(v, k)) {
@@ -1392,6 +1430,13 @@ session_tail(victim *v, sess_exp *se, plan *pl, int fd, bool hs_ok, int pre0, bo
 		vf_stat(vclosed ? "malformed_closed" : "malformed_not_closed_1500ms", 1);
 	}
 
+	if (se->closeexp == CE_NONE && v->vp->can_recv) {
+		// give the victim a moment to deliver what it may deliver
+		uint64_t dend = vf_now_ns() + 30ULL * 1000000ULL;
+		while (se->ndelivered < se->ndeliverable && vf_now_ns() < dend) {
+			if (pump(v) == 0) vf_usleep(300);
+		}
+	}
 	PHASE("closewait");
 	bool held = false;
 	switch (pl->endact) {
@@ -2072,6 +2117,12 @@ run_udp_session(victim *v, plan *pl, vf_rng *r, bool do_new, bool do_spin)
 		vclosed = disc_seen;
 		vf_stat(disc_seen ? "malformed_closed" : "malformed_not_closed_300ms", 1);
 	}
+	if (se->closeexp == CE_NONE && vp->can_recv) {
+		uint64_t dend = vf_now_ns() + 30ULL * 1000000ULL;
+		while (se->ndelivered < se->ndeliverable && vf_now_ns() < dend) {
+			if (pump(v) == 0) vf_usleep(300);
+		}
+	}
 	PHASE("closewait");
 	bool held = false;
 	if (pl->endact == END_HOLD && vclosed != 1) {
@@ -2086,17 +2137,19 @@ run_udp_session(victim *v, plan *pl, vf_rng *r, bool do_new, bool do_spin)
 		uint8_t h[8];
 		udp_hdr(h, 1, 3, vp->peer, 0, 0);
 		(void) send(fd, h, 8, 0);
-	} else if (creq_ok && cack && vclosed != 1 && se->closeexp == CE_NONE) {
-		v->lingering++;
+	} else {
+		v->vanished = true;
 	}
 	close(fd);
 	PHASE("endact");
 	settle(v, 5000);
+	v->vanished = false;
 	PHASE("settle");
 	if (do_spin) spin_window(v, "after-session");
 	check_bystanders(v, do_new && !(held && !vp->single), false);
 	pump(v);
 	PHASE("bystanders");
+	if (vf_verbose) fprintf(stderr, "  session %u %s end=%s dgrams=%d deliverable=%d delivered=%d vclosed=%d cack=%d pre=%d rem=%d ctlrem=%d/%d\n", se->serial, pl->mut, endnames[pl->endact], n, se->ndeliverable, se->ndelivered, vclosed, cack, atomic_load(&v->pre), atomic_load(&v->rem), atomic_load(&v->ctl[0].rem), atomic_load(&v->ctl[1].rem));
 	session_report(v, se, pl, vclosed, written, written);
 	if ((se->serial & 63) == 1) {
 		vf_sample("{\"tran\":\"udp\",\"proto\":\"%s\",\"recvmax\":%zu,\"limit\":%zu,\"ttl\":%d,\"mutation\":\"%s\",\"datagrams\":%d,\"deliverable\":%d,\"delivered\":%d,\"disc_seen\":%d}",
@@ -2319,6 +2372,7 @@ main(int argc, char **argv)
 						run_session(&V, &pl, &pr, (off % 8) == 3, false);
 						vf_stat("trunc_offsets", 1);
 						vf_watchdog(180);
+						if (V.wedged) break;
 					}
 					victim_close(&V);
 					vf_stat("cases", 1);
@@ -2351,6 +2405,7 @@ main(int argc, char **argv)
 				pick_plan(&V, &pl, &r);
 				run_session(&V, &pl, &r, vf_chance(&r, 1, 3), vf_chance(&r, 1, vf_tier ? 24 : 40));
 				vf_watchdog(180);
+				if (V.wedged) break;
 			}
 			vf_io_plan(VF_IO_FULL, 0, VF_IO_FULL, 0, 0);
 			victim_close(&V);
